@@ -2854,7 +2854,7 @@ status_t MessageField :: ReplaceFlatCountableDataItem(uint32 index, muscle::Ref<
    switch(_state)
    {
       case FIELD_STATE_INLINE:
-         return SetInlineItemAsRefCountableRef(fcRef.GetRefCountableRef());
+         return (index == 0) ? SetInlineItemAsRefCountableRef(fcRef.GetRefCountableRef()) : B_DATA_NOT_FOUND;  // an inline field has exactly one item
 
       case FIELD_STATE_ARRAY:
       {
